@@ -217,7 +217,12 @@ struct LinkParams {
 fn gen_conf_link(t: &mut Tape, lp: &LinkParams, o: &ConfOpts, n_hbf: usize, labels: &mut Vec<String>) -> (Link, LinkMeta) {
     let mut packets: Vec<Packet> = vec![];
     let mut meta = LinkMeta::default();
-    let mut orbit: u32 = t.u32();
+    let mut orbit: u32 = match t.below(5) {
+        0 => 0u32.wrapping_sub(1), // first HBF gets orbit 0 or slightly above
+        1 => t.below(200) as u32,
+        2 => u32::MAX - t.below(4000) as u32, // wraps around inside the stream
+        _ => t.u32(),
+    };
     let mut pkt_cnt: u8 = t.u8();
     let mut cdw_user: u64 = t.u64() & 0xFFFF_FFFF_FFFF;
     let mut cdw_index: u32 = 0;
